@@ -35,6 +35,12 @@ var AuthLists = []string{"-", "", "PLAIN", "LOGIN", "PLAIN LOGIN", "CRAM-MD5", "
 	"SCRAM-SHA-256 SCRAM-SHA-1", "SCRAM-SHA-256-PLUS SCRAM-SHA-256 PLAIN", "LOGIN CRAM-MD5 XOAUTH2 SCRAM-SHA-1-PLUS SCRAM-SHA-1",
 	"XPLAIN LOGINX", "PLAIN LOGIN CRAM-MD5 XOAUTH2 SCRAM-SHA-1 SCRAM-SHA-1-PLUS SCRAM-SHA-256 SCRAM-SHA-256-PLUS"}
 
+// LookAlikeHosts: names that look like the local machine but are not one of "localhost", "127.0.0.1", "::1"
+var LookAlikeHosts = []string{"localhost.example.com", "localhost.", "localhost.localdomain", "LOCALHOST", "localhost6",
+	"ip6-localhost", "127.0.0.2", "127.0.0.1.nip.io", "[::1]", "::2", "0.0.0.0", "mylocalhost", "localhost:25"}
+
+var lookalikeAuth = map[string]bool{"PLAIN": true, "LOGIN": true, "PLAIN-NOENC": true, "LOGIN-NOENC": true, "AUTODISCOVER": true, "CUSTOM": true}
+
 func caps(list string, starttls bool) []string {
 	c := []string{"8BITMIME"}
 	if starttls {
@@ -83,7 +89,9 @@ func oracle(r *hx.Run, id string, c dialx.Case, o dialx.Obs) {
 				}
 			}
 		}
-		callerChoice := strings.HasSuffix(c.Auth, "-NOENC") || dialx.IsLocalhostName(c.Host) || c.Custom != "-"
+		// a caller-supplied mechanism that allows unencrypted use is the caller's choice; the strict ones are not
+		callerChoice := strings.HasSuffix(c.Auth, "-NOENC") || dialx.IsLocalhostName(c.Host) ||
+			(c.Custom != "-" && c.Custom != "plain0" && c.Custom != "login0")
 		if f := dialx.FindSecret(o.Clear); f != "" && !callerChoice {
 			r.Fail(id, "password-in-cleartext", fmt.Sprintf("the %s occurs in the cleartext part of the byte stream; %s", f, what))
 		}
@@ -221,6 +229,27 @@ func Table(thorough bool) []dialx.Case {
 							row(pol, true, rep, "ok")
 						}
 					}
+				}
+			}
+			// look-alike host names that are NOT the local machine for smtp.isLocalhost: every row without a TLS handshake
+			// (where the question "may the password go out in clear?" arises), for the password-revealing auth types
+			if lookalikeAuth[a.typ] && (li == 2 || li == 3 || li == 4 || li == len(AuthLists)-1) {
+				for _, host := range LookAlikeHosts {
+					row := func(pol string, adv bool, reply string) {
+						c := dialx.Case{Kind: "dial", Policy: pol, Auth: a.typ, Custom: a.custom, Host: host, Mute: -1,
+							Caps: caps(list, adv), CapsTLS: caps(list, false), HS: "ok"}
+						if adv && pol != "N" {
+							c.Script = []string{"ok", "ok", reply}
+						} else {
+							c.Script = []string{"ok", "ok", authDec}
+						}
+						out = append(out, c)
+					}
+					row("N", false, "ok")
+					row("N", true, "ok")
+					row("O", false, "ok")
+					row("M", false, "ok")
+					row("O", true, "454")
 				}
 			}
 			for _, host := range tcpHosts {
